@@ -173,7 +173,12 @@ func checkStoredCountRule(p *core.Program, r *core.Report, c *wlCtor, rule strin
 
 func isTitleOf(t, k ssa.Value) bool {
 	c, ok := t.(*ssa.Call)
-	return ok && core.CallName(c) == "strings.Title" && c.Call.Args[0] == k
+	_ = c
+	if !ok {
+		return false
+	}
+	x, isT := titleCallArg(t)
+	return isT && x == k
 }
 
 // Term is one addend of a numeric result with the conditions under which it is added.
